@@ -143,14 +143,22 @@ def run_track(req, idx):
             em = Emulsion([cls(np.full(dim, 3.0 + 0.2 * k), 1.5)])
         elif kind == "two":
             em = Emulsion([cls(np.full(dim, 3.0 + 0.2 * k), 1.5), cls(np.full(dim, 9.0 - 0.1 * k), 1.0)])
+        elif kind == "shifted":
+            # one droplet of "two" barely moved, the other one gone, a new one beyond any small cut-off
+            em = Emulsion([cls(np.full(dim, 3.2 + 0.2 * k), 1.5), cls(np.full(dim, 6.0), 0.7)])
         else:
             em = Emulsion([cls(np.full(dim, 11.8 if k % 2 else 0.3), 1.2)])
         frames.append(em)
-    tc = EmulsionTimeCourse(frames, times=[0.5 * k - 1 for k in range(len(frames))])
     kw = {"max_dist": 2.5} if (req["method"] == "distance" and idx % 3 == 0) else {}
     try:
         with warnings.catch_warnings():
             warnings.simplefilter("ignore")
+            if idx % 2:
+                tc = EmulsionTimeCourse(frames, times=[0.5 * k - 1 for k in range(len(frames))])
+            else:
+                tc = EmulsionTimeCourse()
+                for k, em in enumerate(frames):
+                    tc.append(em, 0.5 * k - 1)
             tl = DropletTrackList.from_emulsion_time_course(tc, method=req["method"], grid=grid, **kw)
     except Exception as exc:  # noqa: BLE001
         return "raise", type(exc).__name__, f"{type(exc).__name__}: {str(exc)[:100]}"
